@@ -232,7 +232,20 @@ def _mmap(fileno, length=0, *a, **k):
     return MMapObj(data if not length else data[:length])
 
 
-def file_source(data: bytes, position: int = 0, on_disk: bool = False, max_chunk: Optional[int] = None) -> Obj:
+_FD_SIZE: Dict[int, int] = {}        # what os.fstat reports for a descriptor when it differs from the stream's length
+
+
+def _fstat(fd):
+    """os.fstat(fd) of a model file: the size of what is ON DISK under that descriptor - for a handle with unflushed writes, or
+    a decompressing wrapper that passes its descriptor through, that is not the length of the stream read() delivers."""
+    from .interp import ExcVal, Raised
+    if fd not in _FD_TABLE:
+        raise Raised(ExcVal("OSError", (9, "Bad file descriptor")))
+    return Obj(None, st_size=_FD_SIZE.get(fd, len(_FD_TABLE[fd])), st_mode=0o100644)
+
+
+def file_source(data: bytes, position: int = 0, on_disk: bool = False, max_chunk: Optional[int] = None,
+                disk_size: Optional[int] = None) -> Obj:
     """A binary file object; ``position`` is where the handle stands when it is given to the library (a caller may have
     peeked at the file before); ``on_disk`` files have a descriptor (fileno), in-memory ones raise like io.BytesIO;
     ``max_chunk``: read(n) with n > 0 hands out at most that many bytes per call (io.BufferedIOBase.read: "a short result
@@ -240,7 +253,9 @@ def file_source(data: bytes, position: int = 0, on_disk: bool = False, max_chunk
     st = {"pos": position, "reads": 0}
     if on_disk:
         fd = 1000 + len(_FD_TABLE)
-        _FD_TABLE[fd] = bytes(data)
+        _FD_TABLE[fd] = bytes(data) if disk_size is None else bytes(data)[:disk_size]
+        if disk_size is not None:
+            _FD_SIZE[fd] = disk_size
 
     def read(n=-1):
         st["reads"] += 1
@@ -306,6 +321,7 @@ def source_externals() -> dict:
     ext = {k: v for k, v in SRC_MARKERS.items()}
     ext.update({"isinstance": isinst, "io.SEEK_END": 2, "io.SEEK_SET": 0, "io.SEEK_CUR": 1,
                 "time.time_ns": lambda: 0, "time.time": lambda: 0.0,
+                "os.fstat": _fstat, "os.SEEK_END": 2, "os.SEEK_SET": 0, "os.SEEK_CUR": 1,
                 "mmap.mmap": _mmap, "mmap.ACCESS_READ": 1, "mmap.ACCESS_COPY": 3,
                 "mmap": Obj(None, mmap=_mmap, ACCESS_READ=1, ACCESS_COPY=3, __extmodule__="mmap")})
     return ext
